@@ -328,7 +328,15 @@ Next ==
     \/ WrapperReturns
 
 Spec == Init /\ [][Next]_vars
-FairSpec == Spec /\ WF_vars(Pumps) /\ WF_vars(Handler) /\ WF_vars(Sessions) /\ WF_vars(WrapperReturns)
+(* every goroutine / timer keeps running (weak fairness per action); the environment owes nothing *)
+(* except the echo *)
+FairSpec ==
+    /\ Spec
+    /\ WF_vars(OutToTransfer) /\ WF_vars(OutForward) /\ WF_vars(InSend)
+    /\ WF_vars(HRefuse \/ HChooseFail \/ HCAS) /\ WF_vars(\E how \in Hows : HEnd(how)) /\ WF_vars(HExit) /\ WF_vars(PromptEnd)
+    /\ WF_vars(ZStop) /\ WF_vars(ZCleanup)
+    /\ WF_vars(DragAbort) /\ WF_vars(DragInterrupt) /\ WF_vars(DragCommand) /\ WF_vars(DragReset) /\ WF_vars(EchoArrives)
+    /\ WF_vars(WrapperReturns)
 
 -----------------------------------------------------------------------------
 (* Properties (C05)                                                                          *)
